@@ -173,7 +173,7 @@ PENDING = ["none", "senders", "forever", "input", "all"]
 
 
 def lifecycle_scenario(i, cause, point, pending, opts=None, after_api=False, before_api=False, modes_history=None, isolate=False,
-                       waits_before_run=0, second=None, inp_override=None):
+                       waits_before_run=0, second=None, inp_override=None, hold_us=20000):
     """One Program: get to `point` (a paused callback or idle), let `cause` strike there with `pending` work in
     flight, release the callback, expect Run to return.  Returns (scenario, meta) or None when the combination
     does not exist (e.g. a panic cause needs a callback to panic in)."""
@@ -192,15 +192,15 @@ def lifecycle_scenario(i, cause, point, pending, opts=None, after_api=False, bef
     label = None
     causes = [cause]
     if point == "before-run":
-        # the supplied context is already cancelled when Run is called
-        if cause != "cancel":
+        # the supplied context is already cancelled - or Kill has already been called - when Run is called
+        if cause not in ("cancel", "kill"):
             return None
         script = []
         if waits_before_run:
             script.append(DO("api", kind="wait", n=waits_before_run))
         if before_api:
             script += [DO("api", kind="wait", n=2), DO("api", kind="send", n=2), DO("api", kind="println", n=1)]
-        script += [DO("cancel"), DO("sleep", us=2000), DO("run"), W("returned")]
+        script += [DO("cancel") if cause == "cancel" else DO("kill"), DO("sleep", us=2000), DO("run"), W("returned")]
         if after_api or before_api:
             for k, n in (("wait", 2), ("send", 2), ("println", 1), ("printf", 1), ("quit", 1)):
                 script.append(DO("api", kind=k, n=n))
@@ -338,7 +338,7 @@ def lifecycle_scenario(i, cause, point, pending, opts=None, after_api=False, bef
         script.append(DO("signal", sig="int" if cause == "sigint" else "term"))
     else:
         raise ValueError(cause)
-    script.append(DO("sleep", us=20000))
+    script.append(DO("sleep", us=hold_us))        # how long the paused callback keeps the loop busy after the cause was issued
     if second == "kill":
         script.append(DO("kill"))
         causes.append("kill")
